@@ -33,6 +33,7 @@ pub struct Ctx {
     pub start: Instant,
     pub current: Arc<AtomicU64>,
     pub sub: String,
+    pub corpus: Option<String>,
 }
 
 impl Ctx {
